@@ -224,3 +224,66 @@ Example C05_custom_modifier_content_refuted :
     filter DataTypeContent.is_litb (DataTypeRT.glue (DataTypeRT.print_dt DataTypeContent.T_none t2)) =
       [foo; DataTypeRT.TWord (s2l "x")].
 Proof. exact DataTypeContent.custom_modifier_content_refuted. Qed.
+
+(** * The query core (QueryCore.v, QueryCoreInv.v): the tree the model parser [parse_query] returns, printed,
+    has the content tokens of the consumed input.  [keep]: ANY predicate that keeps only identifier / number /
+    string tokens.  The printer inserts AS before aliases, drops INNER / OUTER, SELECT ALL, LIMIT ALL and trailing
+    commas, writes [USING(..)] and [=] for [==]: none of this is content, and the order of the content tokens is
+    kept - except that LIMIT is always printed before OFFSET ([OFFSET a LIMIT b] and [LIMIT a, b] are accepted):
+    a permutation in general, the ordered equality when no query of the result has both clauses.
+    Exclusion: an unquoted ESCAPE word (known finding core:like-escape-word). *)
+Require SqlV.QueryCore SqlV.QueryCoreProofs SqlV.QueryCoreInv.
+Require SqlVGen.QueryTables.
+
+Lemma C05_query_tables_ok : forall d, In d QueryTables.all_qdialects -> QueryCoreProofs.dialect_ok d = true.
+Proof.
+  intros d H. cbn [QueryTables.all_qdialects In] in H.
+  repeat (destruct H as [H|H]; [subst d; vm_compute; reflexivity|]). destruct H.
+Qed.
+
+Theorem C05_query_content : forall d (keep : QueryCore.qtok -> bool) fuel ts q rest,
+  In d QueryTables.all_qdialects ->
+  (forall t, keep t = true -> QueryCoreInv.qlit t = true) ->
+  QueryCore.parse_query d fuel ts = Ok (q, rest) -> QueryCoreInv.qword_escape q = false ->
+  Permutation (filter keep ts) (filter keep (QueryCore.qtoks q ++ rest)).
+Proof.
+  intros d keep fuel ts q rest Hin Hlit.
+  exact (QueryCoreInv.query_content d (C05_query_tables_ok d Hin) keep Hlit fuel ts q rest).
+Qed.
+Print Assumptions C05_query_content.
+
+Theorem C05_query_content_ordered : forall d (keep : QueryCore.qtok -> bool) fuel ts q rest,
+  In d QueryTables.all_qdialects ->
+  (forall t, keep t = true -> QueryCoreInv.qlit t = true) ->
+  QueryCore.parse_query d fuel ts = Ok (q, rest) -> QueryCoreInv.qcontent_ordered q = true ->
+  filter keep ts = filter keep (QueryCore.qtoks q ++ rest).
+Proof.
+  intros d keep fuel ts q rest Hin Hlit.
+  exact (QueryCoreInv.query_content_ordered d (C05_query_tables_ok d Hin) keep Hlit fuel ts q rest).
+Qed.
+Print Assumptions C05_query_content_ordered.
+
+(** the order is not kept when a query has both clauses: [SELECT x1 OFFSET 1 LIMIT 2] prints
+    [SELECT x1 LIMIT 2 OFFSET 1], and so does [SELECT x1 LIMIT 1, 2] (MySQL: LIMIT offset, count) *)
+Example C05_query_content_order_refuted :
+  let x1 := QueryCore.QE (TAtom false 1) in
+  let n1 := QueryCore.QE (TAtom false 5001) in let n2 := QueryCore.QE (TAtom false 5002) in
+  let kw := QueryCore.QK in
+  forall ts, ts = [kw QueryCore.KSelect; x1; kw QueryCore.KOffset; n1; kw QueryCore.KLimit; n2] \/
+             ts = [kw QueryCore.KSelect; x1; kw QueryCore.KLimit; n1; QueryCore.QE TComma; n2] ->
+  exists q, QueryCore.parse_query QueryTables.qd_mysql 10 ts = Ok (q, []) /\
+    filter QueryCoreInv.qlit ts = [x1; n1; n2] /\ filter QueryCoreInv.qlit (QueryCore.qtoks q) = [x1; n2; n1].
+Proof. intros x1 n1 n2 kw ts [-> | ->]; eexists; vm_compute; repeat split; reflexivity. Qed.
+
+(** the exclusion: [SELECT x1 LIKE x2 ESCAPE x3] prints [ESCAPE 'x3'] - the word becomes a string *)
+Example C05_query_escape_word_refuted :
+  let ts := [QueryCore.QK QueryCore.KSelect; QueryCore.QE (TAtom false 1); QueryCore.QE (TKw KLike);
+             QueryCore.QE (TAtom false 2); QueryCore.QE (TKw KEscape); QueryCore.QE (TAtom false 3)] in
+  exists q, QueryCore.parse_query QueryTables.qd_generic 10 ts = Ok (q, []) /\
+    QueryCoreInv.qword_escape q = true /\
+    ~ Permutation (filter QueryCoreInv.qlit ts) (filter QueryCoreInv.qlit (QueryCore.qtoks q ++ [])).
+Proof.
+  eexists. split; [vm_compute; reflexivity|]. split; [vm_compute; reflexivity|]. vm_compute. intro H.
+  apply (Permutation_in (QueryCore.QE (TAtom false 3))) in H; [|cbn; tauto].
+  cbn in H. repeat (destruct H as [H|H]; [discriminate H|]). exact H.
+Qed.
